@@ -20,7 +20,7 @@ From GV Require Import Prelude.Base.
 Definition uid := N.
 Definition loc := N.
 
-Inductive err := EMaskShape | ENoEntity | ERecursion | EKeyError | ETypeError | EBadParent | ENotCopied.
+Inductive err := EMaskShape | ENoEntity | ERecursion | EKeyError | ETypeError | EBadParent | ENotCopied | EIndex.
 Inductive res (A : Type) := Ok (a : A) | Err (e : err).
 Arguments Ok {A} a.
 Arguments Err {A} e.
@@ -111,7 +111,9 @@ Definition mask_values (nd : option Z) (nparent : nat) (m : list bool) (v : list
   if Nat.ltb nparent (length v) then compress m v else fillmask nd m v.
 
 (* what a child copy receives *)
-(* CCells cm : CellObject.copy(cell_mask=cm) without a vertex mask; CBoth m cm : both keywords given *)
+(* CCells cm : CellObject.copy(cell_mask=cm) without a vertex mask; CBoth m cm : both keywords given.  SIDE CONDITION: these two
+   contexts are modelled for roots that are cell objects (GCells / GCurve) or groups; on other object classes the keyword is
+   not generated (the model leaves such a payload unchanged). *)
 Inductive cmask := CNone | CMask (m : list bool) | CFill (m : list bool) | CCells (cm : list bool) | CBoth (m cm : list bool).
 
 (* context of one copy call: mask, sizes of the NEW parent (Data.copy reads parent.n_vertices / n_cells) *)
@@ -179,7 +181,10 @@ Definition masked_payload (cx : ctx) (p : payload) : res payload :=
       | CCells cm =>
           (* new_cells = self.cells[cell_mask, :]; every vertex is kept *)
           match geok p with
-          | GCells | GCurve => Ok (set_payload p (verts p) (compress cm (cells p)) (vals p))
+          | GCells | GCurve =>
+              (* a boolean index of another length: numpy raises IndexError *)
+              if Nat.eqb (length cm) (length (cells p)) then Ok (set_payload p (verts p) (compress cm (cells p)) (vals p))
+              else Err EIndex
           | _ => Ok p
           end
       | CBoth m cm =>
@@ -189,8 +194,10 @@ Definition masked_payload (cx : ctx) (p : payload) : res payload :=
               match verts p with
               | [] => Ok p
               | _ => if Nat.eqb (length m) (length (verts p))
-                     then Ok (set_payload p (compress m (verts p))
-                                (map (map (fun v => nth v (new_ids m) 1)) (compress cm (cells p))) (vals p))
+                     then if Nat.eqb (length cm) (length (cells p))
+                          then Ok (set_payload p (compress m (verts p))
+                                     (map (map (fun v => nth v (new_ids m) 1)) (compress cm (cells p))) (vals p))
+                          else Err EIndex
                      else Err EMaskShape
               end
           | _ => Ok p
@@ -202,7 +209,9 @@ Definition masked_payload (cx : ctx) (p : payload) : res payload :=
 (* the mask a child of [p] (source payload) receives, given the mask [p] itself received *)
 Definition child_cmask (cx : ctx) (p : payload) (c : payload) : cmask :=
   match knd p with
-  | KGroup => cmk cx                                  (* Group.copy: child.copy(mask=mask) *)
+  | KGroup =>                                         (* Group.copy: child.copy(mask=mask) — the vertex mask ONLY; a cell_mask
+                                                         keyword given to a group stays with the group's constructor call *)
+      match cmk cx with CBoth m _ => CMask m | CCells _ => CNone | x => x end
   | KData => CNone
   | KObject =>
       match cmk cx with
@@ -630,7 +639,7 @@ Inductive outcome := OErr (e : err) | ODone.
 Definition err_eqb (a b : err) : bool :=
   match a, b with
   | EMaskShape, EMaskShape | ENoEntity, ENoEntity | ERecursion, ERecursion | EKeyError, EKeyError
-  | ETypeError, ETypeError | EBadParent, EBadParent | ENotCopied, ENotCopied => true
+  | ETypeError, ETypeError | EBadParent, EBadParent | ENotCopied, ENotCopied | EIndex, EIndex => true
   | _, _ => false
   end.
 
